@@ -152,6 +152,16 @@ def run(tier):
         jobs.add(sib, make_cfg(chars_of(sib, texts)), texts, start='s')
         cases.append(default_case(to_ebnf(sib), texts, start='s'))
         allg.append(sib)
+    # patterns with two groups: docs/syntax.rst gives the AST "the semantics of re.findall(pattern, text)[0] (a tuple if there is more than
+    # one group)"
+    from ..absgrammar import named, pat
+    two = pat(['a'], 1, True, cls2=['b'], mn2=0, many2=True)          # /(a+)([b]*)/
+    two1 = pat(['a'], 1, False, cls2=['b'], mn2=1, many2=False)       # /(a)(b)/
+    for pg in [grammar(rule('s', two)), grammar(rule('s', seq(two1, opt(_a)))), grammar(rule('s', seq(named('x', two), star(_b)))),
+               grammar(rule('s', star(two1))), grammar(rule('s', alt(seq(two, _a), two1)))]:
+        jobs.add(pg, make_cfg(chars_of(pg, texts)), texts, start='s')
+        cases.append(default_case(to_ebnf(pg), texts, start='s', twogroups=True))
+        allg.append(pg)
     # the cut is part of the core language: a slice of C05's placement universe (a cut at every position of every sequence of
     # choice / optional / closure / join skeletons), with the texts that fail right after each cut
     from .c05 import universe as cut_universe
@@ -186,6 +196,9 @@ def run(tier):
                 ck.sample({'grammar': c['ebnf'], 'start': c['start'], 'text': c['texts'][t], 'spec': so, 'impl': ir})
             if why and why.startswith('value') and in_override_list_scope(allg[j - 1]) \
                     and ck.known('KF-C01-1', f"{c['ebnf'].strip()} on {c['texts'][t]!r}"):
+                continue
+            if why and why.startswith('value') and c.get('twogroups') \
+                    and ck.known('KF-C01-2', f"{c['ebnf'].strip()} on {c['texts'][t]!r}"):
                 continue
             if why:
                 ck.violation({'kind': 'parse', 'inputs': {'grammar': c['ebnf'], 'text': c['texts'][t], 'start': c['start']},
